@@ -328,6 +328,31 @@ impl BuildHasher for CollideAll {
     }
 }
 
+/// Partial collisions: the hash is the sum of the written bytes modulo 4, so items fall into four
+/// classes of equal 64-bit hashes (what a poor user-written Hash gives, e.g. one that hashes a length).
+#[derive(Clone, Default, Debug)]
+pub struct CollideSome;
+pub struct CollideSomeHasher(u64);
+impl Hasher for CollideSomeHasher {
+    fn finish(&self) -> u64 {
+        self.0 % 4
+    }
+    fn write(&mut self, bytes: &[u8]) {
+        for b in bytes {
+            self.0 = self.0.wrapping_add(*b as u64);
+        }
+    }
+}
+impl BuildHasher for CollideSome {
+    type Hasher = CollideSomeHasher;
+    fn build_hasher(&self) -> CollideSomeHasher {
+        CollideSomeHasher(0)
+    }
+}
+impl HB for CollideSome {
+    const NAME: &'static str = "collide-some(4 classes)";
+}
+
 /// Hasher keyed by VERIF_SEED (set once at start-up).
 pub static SEED: AtomicU64 = AtomicU64::new(0);
 #[derive(Clone, Debug)]
